@@ -46,6 +46,10 @@ pub struct TState<S, I> {
     pub streak_poll: u64,
     pub max_streak: u32,
     pub total_sent: u64,
+    /// strict mode: like a bounded queue, start_send on a full buffer fails (the contract requires
+    /// a successful poll_ready before every start_send, so a correct endpoint never sees this)
+    pub strict: bool,
+    pub overflow_errors: u32,
 }
 
 impl<S, I> TState<S, I> {
@@ -121,6 +125,8 @@ pub fn sim_transport<S, I>(
         streak_poll: 0,
         max_streak: 0,
         total_sent: 0,
+        strict: false,
+        overflow_errors: 0,
     }));
     (
         SimTransport {
@@ -224,6 +230,12 @@ impl<S, I> SimHandle<S, I> {
     pub fn in_closed(&self) -> bool {
         self.st.borrow().in_closed
     }
+    pub fn set_strict(&self, strict: bool) {
+        self.st.borrow_mut().strict = strict;
+    }
+    pub fn overflow_errors(&self) -> u32 {
+        self.st.borrow().overflow_errors
+    }
 }
 
 impl<S, I> SimTransport<S, I> {
@@ -325,6 +337,12 @@ impl<S: Snap, I> Sink<S> for SimTransport<S, I> {
             drop(s);
             self.log(IoOp::Send, Some(m), IoRes::Err);
             return Err(SimIoError("start_send"));
+        }
+        if s.strict && s.buffer.len() >= s.cap {
+            s.overflow_errors += 1;
+            drop(s);
+            self.log(IoOp::Send, Some(m), IoRes::Err);
+            return Err(SimIoError("start_send (buffer full: no preceding poll_ready)"));
         }
         s.buffer.push_back(item);
         s.total_sent += 1;
